@@ -176,8 +176,12 @@ func runRestart(dir string) (restartReport, error) {
 }
 
 func checkC(h History) *core.Violation {
+	return onExistingFile(h, runC(h, h.dbMode()), func() *core.Violation { return runC(h, "fresh") })
+}
+
+func runC(h History, mode string) *core.Violation {
 	sweepOnce.Do(func() { pvx.SweepStale("c10") })
-	w, err := pvx.NewWorld("c10", h.Existed)
+	w, _, err := pvx.NewWorldMode("c10", mode)
 	if err != nil {
 		panic("harness: " + err.Error())
 	}
@@ -342,7 +346,7 @@ func checkC(h History) *core.Violation {
 func genC(t *rapid.T) History {
 	var h History
 	h.Agents = genAgents(t, 1, 4)
-	h.Existed = rapid.Bool().Draw(t, "existed")
+	h.DB = rapid.SampledFrom([]string{"fresh", "existed", "golden"}).Draw(t, "db")
 	nreg := rapid.IntRange(1, len(h.Agents)).Draw(t, "nreg")
 	for i := 0; i < nreg; i++ {
 		h.Ops = append(h.Ops, Op{K: "reg", A: i})
